@@ -2,10 +2,13 @@ package main
 
 import (
 	"encoding/json"
+	"errors"
 	"fmt"
 	"os"
 	"path/filepath"
 	"strings"
+
+	kv "github.com/XiXi-2024/xixi-kv"
 )
 
 // C12 — damaged bytes are detected or harmless, never served as data and never a panic.
@@ -30,6 +33,8 @@ func c12Images(tier string) []c12Image {
 		// small records deep inside a 32 KiB block (a damaged chunk length can reach beyond the block there)
 		{Name: "deep-in-block", Cfg: blk, Trace: "put b F 20000; put a S; put b S; put a F 9000; put b S; put a S"},
 		{Name: "multi-chunk", Cfg: blk, Trace: "put a S; put b M; put a S; put b B 3; put a S"},
+		// the active file spans two blocks: damage in its first block is not a torn tail
+		{Name: "active-2-blocks", Cfg: blk, Trace: "put a S; put b F 40000; put a S; put b S"},
 	}
 	if tier == "thorough" {
 		bt := defaultCfg
@@ -48,6 +53,93 @@ type builtImage struct {
 	hist   map[string]map[string]bool
 	keys   []string
 	starts map[string][]int // rel path -> byte offsets at which records start (from the package's reader)
+	// the sharper oracle's ground truth, from the harness's own walk over the chunk framing of the UNDAMAGED files
+	final  map[string]string   // mapping at Close
+	prefix []map[string]string // mapping after every operation of the trace (prefix[0] = empty)
+	ext    map[string][][2]int // rel path -> [start,end) of every record (data and hint files)
+	newest string              // rel path of the data file that was active at Close
+}
+
+// recordExtents walks the chunk framing (crc 4, length 2 LE, type 1; types Full 0 First 1 Middle 2 Last 3; a block
+// tail too short for a header plus one byte is padding) of an undamaged file. ok=false if the walk does not end
+// exactly at the end of the file.
+func recordExtents(data []byte) (ext [][2]int, ok bool) {
+	const bs, hdr = 32768, 7
+	o, n := 0, len(data)
+	for o < n {
+		if o%bs+hdr >= bs {
+			o = (o/bs + 1) * bs // padding
+			continue
+		}
+		start := o
+		for {
+			if o+hdr > n {
+				return ext, false
+			}
+			l := int(data[o+4]) | int(data[o+5])<<8
+			t := data[o+6]
+			o += hdr + l
+			if o > n {
+				return ext, false
+			}
+			if t == 0 || t == 3 {
+				break
+			}
+			if o%bs != 0 {
+				return ext, false
+			}
+		}
+		ext = append(ext, [2]int{start, o})
+	}
+	return ext, true
+}
+
+// faultClass: how the oracle treats a fault.
+//
+//	"strict":  Open fails, or every key maps to its final value / is reported not found exactly when absent, or the
+//	           read returns an error; ListKeys is exactly the final key set
+//	"tail":    the file that was active at Close is cut inside a record, or damaged in its final block: the torn-tail
+//	           recovery C03 demands may drop everything from the damaged record on: the mapping seen is the one after
+//	           SOME prefix of the trace (one prefix for all keys), or errors
+//	"shorter": the faulted file is itself a well-formed shorter file (cut between two records / zero-filled from there
+//	           to its end): nothing in the format can tell - only "never bytes that were not written for this key"
+func (bi *builtImage) faultClass(f fault) string {
+	ext := bi.ext[f.File]
+	n := len(bi.snap.Files[f.File])
+	inside := func(p int) bool { // strictly inside a record
+		for _, e := range ext {
+			if e[0] < p && p < e[1] {
+				return true
+			}
+		}
+		return false
+	}
+	switch f.Kind {
+	case "trunc":
+		if !inside(f.Pos) {
+			return "shorter"
+		}
+	case "run":
+		if f.Val == 0 && f.Pos+f.Arg >= n && !inside(f.Pos) {
+			return "shorter"
+		}
+	case "block":
+		if f.Arg == -1 && (f.Pos+1)*32768 >= n && !inside(f.Pos*32768) {
+			return "shorter"
+		}
+	}
+	if f.File == bi.newest {
+		// a cut inside a record IS a torn tail; so is - to any reader - damage in the final block that makes a record
+		// look incomplete (a length field pointing past the end of the file, a checksum mismatch with nothing behind)
+		pos := f.Pos
+		if f.Kind == "block" {
+			pos = f.Pos * 32768
+		}
+		if f.Kind == "trunc" || pos/32768 == (n-1)/32768 {
+			return "tail"
+		}
+	}
+	return "strict"
 }
 
 func buildImage(im c12Image) (*builtImage, error) {
@@ -57,15 +149,31 @@ func buildImage(im c12Image) (*builtImage, error) {
 	if err := w.Open(); err != nil {
 		return nil, err
 	}
+	prefix := []map[string]string{{}}
 	for _, op := range parseTrace(im.Trace) {
 		if ar := w.Apply(op); ar.Err != nil || w.Dead {
 			return nil, fmt.Errorf("building image %s: %s failed: %v", im.Name, op, ar.Err)
 		}
+		prefix = append(prefix, copyModel(w.Model))
 	}
 	if err := w.Close(); err != nil {
 		return nil, err
 	}
-	bi := &builtImage{snap: takeSnap(w.Root), hist: w.Hist, keys: keysAB, starts: map[string][]int{}}
+	bi := &builtImage{snap: takeSnap(w.Root), hist: w.Hist, keys: keysAB, starts: map[string][]int{},
+		final: copyModel(w.Model), prefix: prefix, ext: map[string][][2]int{}}
+	for _, rel := range sortedKeys(bi.snap.Files) {
+		if !(strings.HasSuffix(rel, ".data") || strings.HasSuffix(rel, ".hint")) {
+			continue
+		}
+		ext, ok := recordExtents(bi.snap.Files[rel])
+		if !ok {
+			return nil, fmt.Errorf("building image %s: the harness's walk over the chunk framing of %s does not end at the end of the file", im.Name, rel)
+		}
+		bi.ext[rel] = ext
+		if strings.HasPrefix(rel, "db/") && strings.HasSuffix(rel, ".data") && rel > bi.newest {
+			bi.newest = rel
+		}
+	}
 	for _, dir := range []string{"db", "db-merge"} {
 		files, err := scanDataFiles(filepath.Join(w.Root, dir))
 		if err != nil {
@@ -191,7 +299,7 @@ func enumFaults(file string, data []byte, dense bool, starts []int, visit func(f
 }
 
 // judgeFaulted opens the faulted image and applies the oracle. Returns "" or a description + clause.
-func judgeFaulted(bi *builtImage, cfg Cfg, s *Snap, res *TaskResult) (clause, detail string) {
+func judgeFaulted(bi *builtImage, cfg Cfg, s *Snap, class string, res *TaskResult) (clause, detail string) {
 	imgSeq++
 	root := filepath.Join(scratchRoot(), fmt.Sprintf("c12-%d", imgSeq))
 	defer os.RemoveAll(root)
@@ -234,21 +342,68 @@ func judgeFaulted(bi *builtImage, cfg Cfg, s *Snap, res *TaskResult) (clause, de
 			w.Close()
 		}
 	}()
+	res.count("class_"+class, 1)
 	perr := w.guard(func() error {
+		// candidates: the mappings the opened database may show (strict: the final one; tail: the one after any prefix)
+		cands := []map[string]string{bi.final}
+		if class == "tail" {
+			cands = bi.prefix
+		}
+		alive := make([]bool, len(cands))
+		for i := range alive {
+			alive[i] = true
+		}
+		var seen []string
 		for _, k := range append(append([]string{}, bi.keys...), "zz-never") {
 			v, err := w.DB.Get([]byte(k))
-			if err != nil {
+			if err != nil && !errors.Is(err, kv.ErrKeyNotFound) {
+				seen = append(seen, fmt.Sprintf("%s:%s", k, errClass(err)))
 				continue
 			}
-			if !bi.hist[k][string(v)] {
+			if err == nil && !bi.hist[k][string(v)] {
 				clause, detail = "get-foreign-bytes", fmt.Sprintf("Get(%q) returned %s, which was never written for this key", k, short(string(v)))
 				return nil
 			}
+			if err == nil {
+				seen = append(seen, fmt.Sprintf("%s=%s", k, short(string(v))))
+			} else {
+				seen = append(seen, k+":not-found")
+			}
+			for i, c := range cands {
+				want, ok := c[k]
+				if (err == nil) != ok || (ok && want != string(v)) {
+					alive[i] = false
+				}
+			}
 		}
+		if class != "shorter" {
+			any := false
+			for _, a := range alive {
+				any = any || a
+			}
+			if !any {
+				what := "the mapping at Close " + modelString(bi.final)
+				if class == "tail" {
+					what = "the mapping after any prefix of the trace"
+				}
+				clause, detail = "stale-or-missing", fmt.Sprintf("Open accepted the damaged image and the reads (no error) do not agree with %s: %s", what, strings.Join(seen, " "))
+				return nil
+			}
+		}
+		listed := map[string]bool{}
 		for _, k := range w.DB.ListKeys() {
 			if bi.hist[string(k)] == nil {
 				clause, detail = "phantom-key", fmt.Sprintf("ListKeys returned key %q, which was never written", truncate(string(k), 16))
 				return nil
+			}
+			listed[string(k)] = true
+		}
+		if class == "strict" {
+			for _, k := range bi.keys {
+				if _, ok := bi.final[k]; ok != listed[k] {
+					clause, detail = "stale-or-missing", fmt.Sprintf("Open accepted the damaged image; ListKeys has key %q: %v, the mapping at Close %s", k, listed[k], modelString(bi.final))
+					return nil
+				}
 			}
 		}
 		w.DB.Fold(func(k, v []byte) bool {
@@ -258,6 +413,10 @@ func judgeFaulted(bi *builtImage, cfg Cfg, s *Snap, res *TaskResult) (clause, de
 			}
 			if !bi.hist[string(k)][string(v)] {
 				clause, detail = "fold-foreign-bytes", fmt.Sprintf("Fold returned %s for key %q, which was never written for it", short(string(v)), k)
+				return false
+			}
+			if class == "strict" && bi.final[string(k)] != string(v) {
+				clause, detail = "stale-or-missing", fmt.Sprintf("Open accepted the damaged image; Fold returned %s for key %q, the mapping at Close %s", short(string(v)), k, modelString(bi.final))
 				return false
 			}
 			return true
@@ -327,7 +486,7 @@ func c12Tasks(tier string) []Task {
 						res.Transitions++
 						fs := applyFault(bi.snap, f)
 						res.States = append(res.States, fs.hash())
-						c, d := judgeFaulted(bi, im.Cfg, fs, res)
+						c, d := judgeFaulted(bi, im.Cfg, fs, bi.faultClass(f), res)
 						res.Nontrivial++
 						if c != "" {
 							res.Violations = append(res.Violations, Violation{Prop: "C12", Clause: c, Sig: c + ":" + f.Kind,
@@ -381,7 +540,7 @@ func init() {
 					os.Exit(2)
 				}
 				var res TaskResult
-				c, d := judgeFaulted(bi, im.Cfg, applyFault(bi.snap, m.Fault), &res)
+				c, d := judgeFaulted(bi, im.Cfg, applyFault(bi.snap, m.Fault), bi.faultClass(m.Fault), &res)
 				if c != "" {
 					fmt.Printf("VIOLATION clause=%s\n%s\n", c, d)
 					os.Exit(1)
